@@ -19,6 +19,20 @@ CHECKS = {
    ref="6 (C09)"),
 }
 
+CLIENT_TEXT = ("Executions of the real client under the gate scheduler (every hook site of the verif build tag and every I/O call on the "
+  "harness's connections, dialer and store is a scheduling point): seeded schedules with injected faults (failed, partial and timed-out "
+  "writes, failed dials, store errors, connection breaks, process stops followed by AdoptSession, store damage), a conforming scripted broker, "
+  "and a healing epilogue (drain, Close, leak check). Every recorded trace is judged by TLC with spec/Monitor.tla: the property's clauses are "
+  "TLA+ predicates over an observation state fed by observable events only. ")
+CLIENT_NOTE = ("Trusted: harness (sim net/broker/store, codec, gate scheduler), TLC. Bounds: 1-3 writer goroutines, 1-3 requests each, windows 1-4, "
+  "<= 4 faults, <= 2 stop/adopt generations per behaviour; 480 (quick) / 2400 (thorough) behaviours per run, seeded by VERIF_SEED. 'Never returns' "
+  "is observed as no event for 250 ms in the healed world with the blocked frame inside the package.")
+for pid, fam in [("C01","out,restart"),("C02","restart"),("C03","out,restart"),("C04","in,inrestart"),("C05","out,restart"),("C07","in"),
+                 ("C10","connect,req,out"),("C11","req,close"),("C12","close"),("C16","damage"),("C17","out,restart,req"),("C18","connect,out")]:
+    CHECKS[pid] = dict(engine="client", level="exploration",
+        technique="gate-scheduled executions of the real client (seeded schedules + faults) judged by TLC with the TLA+ observation monitor spec/Monitor.tla",
+        text=CLIENT_TEXT + "Scenario families for this property: " + fam + ".", note=CLIENT_NOTE, ref="5, 6 (%s)" % pid)
+
 def main():
     hooks = subprocess.run(["git", "-C", "/repo", "log", "--format=%h %s"], capture_output=True, text=True).stdout.splitlines()
     hook_commits = [l.split()[0] for l in hooks if l.split(" ", 1)[1].startswith("verif:")]
